@@ -101,8 +101,9 @@ def containsAux (τ : Tol K) : Bool → Dom K → Env K → Env K → Option Boo
     | some [x, y], [ox, oy], [ax, ay], [bx, cy] =>
       let b := solveLgs (x - ox) (y - oy) (ax - ox) (ay - oy) (bx - ox) (cy - oy)
       if onB then
-        let in1 := le 0 b.1 && le b.1 1
-        let in2 := le 0 b.2 && le b.2 1
+        -- along an edge the range check includes the corners up to the same tolerance
+        let in1 := le (-τ.batol) b.1 && le b.1 (1 + τ.batol)
+        let in2 := le (-τ.batol) b.2 && le b.2 (1 + τ.batol)
         some (((isclose τ.bary b.1 1 || isclose τ.bary b.1 0) && in2) || ((isclose τ.bary b.2 1 || isclose τ.bary b.2 0) && in1))
       else
         some ((le 0 b.1 && le b.1 1) && (le 0 b.2 && le b.2 1))
@@ -113,8 +114,8 @@ def containsAux (τ : Tol K) : Bool → Dom K → Env K → Env K → Option Boo
       -- dir_1 = c1 − o, −dir_3 = c2 − o
       let b := solveLgs (x - ox) (y - oy) (ax - ox) (ay - oy) (bx - ox) (cy - oy)
       if onB then
-        let x0 := isclose τ.bary b.1 0 && (le 0 b.2 && le b.2 1)
-        let y0 := isclose τ.bary b.2 0 && (le 0 b.1 && le b.1 1)
+        let x0 := isclose τ.bary b.1 0 && (le (-τ.batol) b.2 && le b.2 (1 + τ.batol))
+        let y0 := isclose τ.bary b.2 0 && (le (-τ.batol) b.1 && le b.1 (1 + τ.batol))
         -- third edge: sum close to 1, restricted to the segment between corner_1 and corner_2
         let e3 := isclose τ.bary (b.1 + b.2) 1 && (le (-τ.batol) b.1 && le (-τ.batol) b.2)
         some ((x0 || y0) || e3)
@@ -242,13 +243,14 @@ def slacks (τ : Tol K) : Bool → Dom K → Env K → Env K → Option (List K)
     | some [x, y], [ox, oy], [ax, ay], [bx, cy] =>
       let b := solveLgs (x - ox) (y - oy) (ax - ox) (ay - oy) (bx - ox) (cy - oy)
       let ins := [b.1, 1 - b.1, b.2, 1 - b.2]
-      some (if onB then ins ++ [closeSlack τ.bary b.1 0 1, closeSlack τ.bary b.1 1 1, closeSlack τ.bary b.2 0 1, closeSlack τ.bary b.2 1 1] else ins)
+      let insB := [b.1 + τ.batol, 1 + τ.batol - b.1, b.2 + τ.batol, 1 + τ.batol - b.2]
+      some (if onB then insB ++ [closeSlack τ.bary b.1 0 1, closeSlack τ.bary b.1 1 1, closeSlack τ.bary b.2 0 1, closeSlack τ.bary b.2 1 1] else ins)
     | _, _, _, _ => none
   | onB, .tri v o c1 c2, pts, ρ =>
     match pts.get v, o.f (pts ++ ρ), c1.f (pts ++ ρ), c2.f (pts ++ ρ) with
     | some [x, y], [ox, oy], [ax, ay], [bx, cy] =>
       let b := solveLgs (x - ox) (y - oy) (ax - ox) (ay - oy) (bx - ox) (cy - oy)
-      some (if onB then [b.1, 1 - b.1, b.2, 1 - b.2, closeSlack τ.bary b.1 0 1, closeSlack τ.bary b.2 0 1, closeSlack τ.bary (b.1 + b.2) 1 1,
+      some (if onB then [b.1 + τ.batol, 1 + τ.batol - b.1, b.2 + τ.batol, 1 + τ.batol - b.2, closeSlack τ.bary b.1 0 1, closeSlack τ.bary b.2 0 1, closeSlack τ.bary (b.1 + b.2) 1 1,
                          b.1 + τ.batol, b.2 + τ.batol]
             else [b.1, b.2, 1 - (b.1 + b.2)])
     | _, _, _, _ => none
